@@ -35,6 +35,9 @@ class Violation(AssertionError):
     """The property under test does not hold for the current case."""
 
 
+SHRINK_BUDGET_S = 90   # wall time a shard may spend shrinking after its first failure
+
+
 class _Abort(BaseException):
     """Stops a campaign early (another shard failed / wall budget used up)."""
 
@@ -184,7 +187,7 @@ def _task_hyp(args):
                 if time.time() - t0 > budget:
                     out["truncated"] = True
                     raise _Abort()
-            elif time.time() - t0 > budget + 240:
+            elif time.time() - state["t_fail"] > SHRINK_BUDGET_S:
                 raise _Abort()
             case = norm(case)
             rec.begin(case)
@@ -193,6 +196,8 @@ def _task_hyp(args):
                 sub.check(case, rec)
                 ok = True
             except Violation as v:
+                if not state["failed"]:
+                    state["t_fail"] = time.time()
                 state["failed"] = True
                 if _STOP is not None:
                     _STOP.set()
@@ -282,11 +287,19 @@ def _task_machine(args):
                     if time.time() - t0 > budget:
                         out["truncated"] = True
                         raise _Abort()
-                elif time.time() - t0 > budget + 240:
+                elif time.time() - state["t_fail"] > SHRINK_BUDGET_S:
                     raise _Abort()
 
             @staticmethod
+            def harness_error(tb):
+                """An exception that is not a Violation escaped a rule: stop, report exit 2."""
+                out["error"] = tb
+                raise _Abort()
+
+            @staticmethod
             def failed(history, message):
+                if not state["failed"]:
+                    state["t_fail"] = time.time()
                 state["failed"] = True
                 if _STOP is not None:
                     _STOP.set()
@@ -307,8 +320,12 @@ def _task_machine(args):
             if state["failed"]:
                 out["failure"] = dict(failure)
         except hypothesis.errors.Flaky as e:
+            # Hypothesis reports "inconsistent data generation" when our _Abort cuts a
+            # replayed history short; that is an abort, not a verdict.
             if failure:
-                out["failure"] = dict(failure, message=failure.get("message", "") + " [flaky]")
+                out["failure"] = dict(failure)
+            elif out.get("error") or out["truncated"] or (_STOP is not None and _STOP.is_set()):
+                pass
             else:
                 out["error"] = "Flaky: " + str(e)[:500]
     except _Abort:
